@@ -18,19 +18,33 @@
 (*                   the greenlet spawned by ContinueWith(on_hub=False)    *)
 (* Results: 0 = the result the combinator creates (ret / unwrapped_ar /    *)
 (* cw_ar), 1..N = inputs (Unwrap: chain levels; Map: 1 = source, 2 = the   *)
-(* result the mapped function returns when fnk = "nest"), N+1 = Map's      *)
+(* result the mapped function returns when fnk = "nest", which may itself  *)
+(* complete with result 3: a chain that Map must flatten), N+1 = Map's     *)
 (* intermediate cw_ar.  `retid` is the result handed to the caller         *)
 (* (WhenAny may hand back one of its inputs).                              *)
 (* Fixed = FALSE models WhenAny as in the unchanged tree, Fixed = TRUE as  *)
 (* repaired by fixes/C17-whenany.diff.                                     *)
+(* ContinueWith continuations (fnk): "ret" / "raise" a plain value, or hand *)
+(* back a result OBJECT: "retar" = result 2 (a follow-up operation the     *)
+(* environment completes at any time or never), "retself" = the source it  *)
+(* was given.  The code does cw_ar.set(val) with whatever fn returned, so  *)
+(* the cell of cw_ar then holds ArV(2) / ArV(1): the object, not its       *)
+(* content.                                                                *)
+(* Follow = TRUE is NOT the code: it is the tempting design in which       *)
+(* _SafeLinkHelper "follows" a returned result (val.rawlink(target), the   *)
+(* gevent AsyncResult being its own link callback that copies value or     *)
+(* exception) and ContinueWith delegates to it; AsyncImpl_follow.cfg keeps *)
+(* it as a design-level counterexample to C17.continueWith.  Map and       *)
+(* Unwrap are indifferent to it (one notifier quantum later).              *)
 (* The property-level machine AsyncAbs runs in lock-step on ghost          *)
 (* variables; every quiescent state after the call is judged by ObsCheck.  *)
 (***************************************************************************)
 EXTENDS AsyncAbs
 
 CONSTANTS CombSet,   \* combinators explored (chosen at Init)
-          N,         \* number of inputs / chain levels (ContinueWith uses 1, Map 2 of them)
-          Fixed      \* WhenAny variant: FALSE = unchanged tree, TRUE = repaired
+          N,         \* number of inputs / chain levels (ContinueWith uses 1-2, Map 2-3 of them)
+          Fixed,     \* WhenAny variant: FALSE = unchanged tree, TRUE = repaired
+          Follow     \* FALSE = the code: set(fn()); TRUE = "follow a returned result" design
 
 VARIABLES cell, links, notif, runq, total, results, retid, phase, onhub, fnk, viol
 ivars == <<cell, links, notif, runq, total, results, retid, phase, onhub, fnk>>
@@ -86,6 +100,15 @@ UnwrapHelper(s, a, tgt) ==
        ELSE SetVal(s, tgt, s.cell[a].val)
   ELSE RawLink(s, a, [f |-> "unwrap", n |-> tgt])
 
+\* gevent AsyncResult.__call__(source = a) used as a link: copy the outcome into c (Follow only)
+CopyC(s, a, c) ==
+  IF Succ(s, a) THEN SetVal(s, c, s.cell[a].val) ELSE SetExc(s, c, Exc(s, a))
+
+\* what run() / _SafeLinkHelper does with the value fn returned
+Deliver(s, c, v) ==
+  IF Follow /\ v.vk = "ar" THEN RawLink(s, v.val[1], [f |-> "copy", n |-> c])
+  ELSE SetVal(s, c, v)
+
 \* ContinueWith's run(): the continuation fn(_ar = source 1), result into c.
 \* ContinueWith runs: the harness continuation returns 100 + value / 200 + exception id,
 \* or raises 77.  Map: mapper returns self on failure, else fn(value).
@@ -93,14 +116,17 @@ RunCont(s, c) ==
   IF acomb = "ContinueWith"
   THEN IF fnk = "raise"
        THEN SetExc([s EXCEPT !.run = [ready |-> Ready(s, 1), arg |-> 0, out |-> "raise", v |-> 77]], c, 77)
+       ELSE IF fnk \in {"retar", "retself"}
+       THEN LET a == IF fnk = "retar" THEN 2 ELSE 1
+            IN Deliver([s EXCEPT !.run = [ready |-> Ready(s, 1), arg |-> 0, out |-> "ar", v |-> a]], c, ArV(a))
        ELSE LET w == IF Exc(s, 1) # -1 THEN 200 + Exc(s, 1)
                      ELSE IF s.cell[1].val.vk = "int" THEN 100 + s.cell[1].val.val[1] ELSE 99
             IN SetVal([s EXCEPT !.run = [ready |-> Ready(s, 1), arg |-> 0, out |-> "ret", v |-> w]], c, IntV(w))
   ELSE \* Map.mapper
-       IF Exc(s, 1) # -1 THEN SetVal(s, c, ArV(1))
+       IF Exc(s, 1) # -1 THEN Deliver(s, c, ArV(1))
        ELSE LET arg == IF s.cell[1].val.vk = "int" THEN s.cell[1].val.val[1] ELSE -2 IN
             CASE fnk = "raise" -> SetExc([s EXCEPT !.run = [ready |-> TRUE, arg |-> arg, out |-> "raise", v |-> 77]], c, 77)
-              [] fnk = "nest"  -> SetVal([s EXCEPT !.run = [ready |-> TRUE, arg |-> arg, out |-> "nest", v |-> 2]], c, ArV(2))
+              [] fnk = "nest"  -> Deliver([s EXCEPT !.run = [ready |-> TRUE, arg |-> arg, out |-> "nest", v |-> 2]], c, ArV(2))
               [] OTHER         -> SetVal([s EXCEPT !.run = [ready |-> TRUE, arg |-> arg, out |-> "ret", v |-> 100 + arg]],
                                          c, IntV(100 + arg))
 
@@ -114,6 +140,7 @@ CallCb(s, cb, a) ==
     [] cb.f = "any"    -> AnyC(s, a)
     [] cb.f = "unwrap" -> UnwrapHelper(s, a, cb.n)
     [] cb.f = "cw"     -> CwCallback(s, cb.n)
+    [] cb.f = "copy"   -> CopyC(s, a, cb.n)
 
 RECURSIVE CallAll(_, _, _)
 CallAll(s, ls, a) == IF ls = <<>> THEN s ELSE CallAll(CallCb(s, Head(ls), a), Tail(ls), a)
@@ -151,15 +178,17 @@ Init ==
   /\ phase = "pre"
   /\ \E c \in CombSet : AInit(c, N)
   /\ onhub \in (IF acomb = "ContinueWith" THEN BOOLEAN ELSE {TRUE})
-  /\ fnk \in (CASE acomb = "ContinueWith" -> {"ret", "raise"}
+  /\ fnk \in (CASE acomb = "ContinueWith" -> {"ret", "raise", "retar", "retself"}
                [] acomb = "Map" -> {"ret", "raise", "nest"}
                [] OTHER -> {"ret"})
   /\ viol = "ok"
 
 Kinds(i) ==
   CASE acomb = "Unwrap" -> {"ok", "fail"} \cup (IF i < N THEN {"nest"} ELSE {})
-    [] acomb = "Map"    -> IF i = 1 \/ (i = 2 /\ fnk = "nest") THEN {"ok", "fail"} ELSE {}
-    [] acomb = "ContinueWith" -> IF i = 1 THEN {"ok", "fail"} ELSE {}
+    [] acomb = "Map"    -> IF i = 1 \/ (i \in {2, 3} /\ fnk = "nest")
+                           THEN {"ok", "fail"} \cup (IF i = 2 /\ N >= 3 THEN {"nest"} ELSE {})
+                           ELSE {}
+    [] acomb = "ContinueWith" -> IF i = 1 \/ (i = 2 /\ fnk = "retar") THEN {"ok", "fail"} ELSE {}
     [] OTHER           -> {"ok", "fail"}
 
 SetInput(i, k) ==
@@ -209,8 +238,8 @@ Proj ==
   [ready |-> c.exc # -1 \/ c.val.vk # "unset",
    ok    |-> c.val.vk # "unset",
    exn   |-> c.exc,
-   vk    |-> IF c.val.vk = "unset" THEN "none" ELSE IF c.val.vk = "ar" THEN "other" ELSE c.val.vk,
-   val   |-> IF c.val.vk \in {"int", "list"} THEN c.val.val ELSE <<>>]
+   vk    |-> IF c.val.vk = "unset" THEN "none" ELSE c.val.vk,
+   val   |-> c.val.val]
 
 Quiescent == phase = "post" /\ runq = <<>>
 NoViolation == viol = "ok" /\ (Quiescent => ObsCheck(Proj) = "ok")
